@@ -206,9 +206,63 @@ def r1_r2_r5(ctx):
         hc = [n for c in calls_to(repo, f, "gunicorn.workers.sync.SyncWorker.handle") for n in nodes_with(f, c)]
         okk = bool(hc) and f.cfg.must_pass(sn, hc, follow_exc=False) is None
         ctx.check("C05.R5", okk, key(f, "accept-handle"), site(f, sn), "an accepted connection is not handed to handle() on every normal path of %s" % f.short, "accept -> handle")
+    accept_errors(ctx, "C05.R5")
     f = ctx.fn(repo.func("gunicorn.workers.gthread.ThreadWorker.enqueue_req"))
     sub = [c for c in method_calls(f, "submit") if c.args and repo.resolve(f.module, f, c.args[0]) == "self.handle"]
     ctx.check("C05.R5", bool(sub), key(f, "pool-entry"), site(f), "the thread pool entry point is not self.handle", "tpool.submit(self.handle, conn)")
+
+
+def accept_errors(ctx, rid):
+    """a connection that the client aborts between the handshake and accept() (ECONNABORTED), and an accept() that lost the
+    race against a sibling worker (EAGAIN / EWOULDBLOCK), are not errors: evaluated from the clause that catches the OSError
+    of each listener.accept() site of the sync and the threaded worker -- the three errnos are swallowed there, and the two
+    workers agree on every other errno sampled"""
+    repo = ctx.repo
+    sites = [(f, sn) for f, sn, st in sync_accept_sites(repo)]
+    fa = repo.func("gunicorn.workers.gthread.ThreadWorker.accept")
+    for s_ in fa.cfg.stmts(ast.Assign):
+        v = s_.ast.value
+        if isinstance(v, ast.Call) and isinstance(v.func, ast.Attribute) and v.func.attr == "accept" and not v.args:
+            sites.append((fa, s_))
+    ctx.need(len(sites) >= 2, rid + ": accept sites of the sync / threaded worker not found")
+    tolerated = ("EAGAIN", "EWOULDBLOCK", "ECONNABORTED")
+    others = ("ECONNRESET", "EMFILE", "ENFILE", "EBADF", "EINVAL", "ENOMEM", "EINTR")
+    verdicts = {}
+    n = 0
+    for f, sn in sites:
+        ctx.fn(f)
+        g = f.cfg
+        hs = [b for b, l in sn.out if l == "exc" and b.kind == "handler" and (b.ast.type is None or any(x in norm(b.ast.type) for x in ("OSError", "Exception", "EnvironmentError", "error")))]
+        if not hs:
+            if f.name == "accept" and f.cls is not None and f.cls.name == "SyncWorker":
+                continue        # judged where it is expanded into the run loops, whose clause catches it
+            ctx.bad(rid, key(f, "accept-errors|no-handler"), site(f, sn), "an OSError from accept() is not caught in %s: a client that aborts before accept() ends the worker" % f.short)
+            continue
+        n += 1
+        h = hs[0]
+        body = set(x.id for x in g.nodes if x.ast is not None and (x.ast is h.ast or any(a is h.ast for a in f.module.ancestors(x.ast))))
+        hv = h.ast.name
+
+        def atom_of(e, hv=hv):
+            if hv and norm(e) in ("%s.errno" % hv, "%s.args[0]" % hv):
+                return "ERRNO"
+            return None
+        for err in tolerated + others:
+            outs = Explorer(f, atom_of=atom_of).run(h, {"ERRNO": "@errno." + err}, stop=lambda x: x.id not in body)
+            got = set()
+            for o in outs:
+                if o.kind == "raise" or (o.kind == "stop" and o.detail.kind in ("handler", "raise")):
+                    got.add("propagates")
+                else:
+                    got.add("swallowed")
+            verdicts.setdefault(err, {})[f.short] = got
+            if err in tolerated:
+                ctx.check(rid, got == {"swallowed"}, key(f, "accept-errors|" + err), site(f, h), "accept() failing with %s %s in %s: the worker's main loop dies because a client aborted before accept() / a sibling won the race" % (
+                    err, sorted(got), f.short), "%s swallowed" % err)
+    for err in others:
+        vs = set(tuple(sorted(v)) for v in verdicts.get(err, {}).values())
+        ctx.check(rid, len(vs) <= 1, "accept-errors-agree|" + err, "gunicorn/workers: accept() error handling", "the workers disagree on accept() failing with %s: %s" % (err, verdicts.get(err)), "siblings agree on %s" % err)
+    ctx.floor(rid, "accept error clauses", n, 2)
 
 
 def stale_request(ctx):
